@@ -53,7 +53,7 @@ static std::vector<Parser> make_parsers(bool T) {
 
   { // ---- DMS::Decode(s, ind)
     Parser p; p.name = "DMS::Decode";
-    p.run = [](const std::string& s) { PR pr; DMS::flag ind = DMS::flag(IS); volatile double r = DS; pr.t = fault::guarded([&] { r = DMS::Decode(s, ind); }); if (pr.t.threw()) { ALT(int(ind) == IS, "ind"); } return pr; };
+    p.run = [](const std::string& s) { PR pr; DMS::flag ind = DMS::flag(7); volatile double r = DS; pr.t = fault::guarded([&] { r = DMS::Decode(s, ind); }); if (pr.t.threw()) { ALT(int(ind) == 7, "ind"); } return pr; };
     for (auto& q : pos) for (int prec : {0, 3, 7}) for (int tr : {0, 1, 2}) { p.seeds.push_back(DMS::Encode(q.first, DMS::component(tr), prec, DMS::LATITUDE)); p.seeds.push_back(DMS::Encode(q.second, DMS::component(tr), prec, DMS::LONGITUDE, ':')); }
     for (const char* s : {"1:2:3", "-0", "+1e2", "4d0'9\"", "4.5'", "-7.25\"S", "nan", "inf", "-infinity", "S33d", "1d+2'", "70:5W", "5\xc2\xb0" "3\xe2\x80\xb2" "2\xe2\x80\xb3N"}) p.seeds.push_back(s);
     cap(p.seeds); P.push_back(p);
